@@ -24,7 +24,7 @@ ASSUMPTIONS = ["six 1.17 shim", "actor assumption", "operations are issued at qu
 BUDGET = {"quick": (600, 150), "thorough": (20000, 2400)}
 FAULTS = ["reinstall", "clean_restart"]
 PROBES = ["pin_kept_after_reinstall", "untrusted_first_message_refused", "untrusted_bundle_refused", "autotrust_replaced_pin",
-          "pin_enforced_after_restart", "messaging_resumed_with_autotrust", "first_contact_by_incoming_message"]
+          "pin_enforced_after_restart", "messaging_resumed_with_autotrust", "first_contact_by_incoming_message", "autotrust_toggled_while_connected"]
 SHRINK = ["ops"]
 PH = {"A": "4915150000001", "B": "4915150000002", "C": "4915150000003"}
 _S = {}
@@ -55,8 +55,10 @@ def case(idx, tier, base):
         elif x < 0.82 and i >= 1:
             ops.append("reinstall_b")
             reinstalled = True
-        elif x < 0.92:
+        elif x < 0.90:
             ops.append("restart_a")
+        elif x < 0.96:
+            ops.append(r.choice(["autotrust_on", "autotrust_off"]))
         else:
             ops.append("c2a")
     if not reinstalled:
@@ -88,6 +90,7 @@ class W(convo.World):
         self.tok = 0
         self.after_reinstall_attempts = 0
         self.refused_logged = 0
+        self.auto = bool(case["autotrust"])
 
     def on_app_entity(self, client, e):
         if e.getTag() == "success":
@@ -113,7 +116,7 @@ class W(convo.World):
                 self.pinned = rec["inc"]
                 self.probe("first_contact_by_incoming_message")
             elif rec["inc"] != self.pinned:
-                if self.case["autotrust"]:
+                if self.auto:
                     self.pinned = rec["inc"]
                 else:
                     self.violate("changed-identity-accepted/incoming-message",
@@ -122,7 +125,7 @@ class W(convo.World):
         if client is self.b and rec["dir"] == "a2b":
             if rec["inc"] != self.b_inc:
                 pass
-            elif self.pinned is not None and self.pinned != self.b_inc and not self.case["autotrust"]:
+            elif self.pinned is not None and self.pinned != self.b_inc and not self.auto:
                 self.violate("changed-identity-accepted/encrypted-for-new-identity",
                              "B (identity #%d) decrypted A's message tok %d although A had pinned identity #%d and automatic "
                              "trust is off" % (self.b_inc, rec["tok"], self.pinned))
@@ -144,7 +147,8 @@ class W(convo.World):
         def op():
             ent, fields = c03.compose("text", to.jid, self.seed, tok)
             self.sent[(frm.jid, ent.getId())] = {"dir": direction, "inc": inc, "tok": tok, "delivered": 0,
-                                                  "body": fields["conversation"], "after": self.reinstalled_since_pin()}
+                                                  "body": fields["conversation"], "after": self.reinstalled_since_pin(),
+                                                  "auto": self.auto}
             frm.app.toLower(ent)
         frm.post_op(op)
 
@@ -163,16 +167,16 @@ class W(convo.World):
         rid = PH["B"]
         trusted = [i for i, k in sorted(self.b_keys.items()) if store.isTrustedIdentity(rid, k)]
         known = sorted(self.b_keys)
-        if self.case["autotrust"] and len(trusted) == 1 and trusted[0] >= self.pinned:
+        if self.auto and len(trusted) == 1 and trusted[0] >= self.pinned:
             # automatic trust: the pin follows the newest identity A has come across (bundle fetch or first message)
             self.pinned = trusted[0]
         if len(known) >= 2 and trusted == known:
             self.violate("pin/missing", "%s: A's store trusts every identity of B (%s): no pin is stored although identity #%d "
                          "was seen first" % (when, trusted, self.pinned))
         elif self.pinned not in trusted:
-            self.violate("pin/%s" % ("replaced-without-autotrust" if not self.case["autotrust"] else "wrong"),
+            self.violate("pin/%s" % ("replaced-without-autotrust" if not self.auto else "wrong"),
                          "%s: A's store trusts identities %s of B, the model says #%d is pinned (autotrust=%s)"
-                         % (when, trusted, self.pinned, self.case["autotrust"]))
+                         % (when, trusted, self.pinned, self.auto))
         elif len(trusted) > 1:
             self.violate("pin/ambiguous", "%s: A's store trusts %s" % (when, trusted))
         elif self.reinstalled_since_pin():
@@ -227,6 +231,14 @@ class W(convo.World):
                     self.status = self.status or "stuck-after-reinstall"
                     return
                 self.read_b_identity()
+            elif op in ("autotrust_on", "autotrust_off"):
+                v = op == "autotrust_on"
+                if v != self.auto:
+                    self.probe("autotrust_toggled_while_connected")
+                self.auto = v
+                self.a.autotrust = v
+                S = convo.S()
+                self.a.post_op(lambda v=v: self.a.stack.setProp(S["PROP_IDENTITY_AUTOTRUST"], v))
             elif op == "restart_a":
                 self.on_fault("clean_restart", "A", {})
                 self.ready["A"] = False
@@ -250,8 +262,8 @@ class W(convo.World):
             if not self.violations:
                 self.violate("liveness/%s" % (self.status or kstatus), self.stuck_report())
             return
-        auto = self.case["autotrust"]
         for key, rec in self.sent.items():
+            auto = rec["auto"]
             d = rec["delivered"]
             if d > 1:
                 self.violate("delivery/duplicate", "message tok %d shown %d times" % (rec["tok"], d))
@@ -271,7 +283,7 @@ class W(convo.World):
             else:
                 if d == 0:
                     self.probe("untrusted_first_message_refused" if rec["dir"] == "b2a" else "untrusted_bundle_refused")
-        if auto and self.b_inc > 0 and self.pinned == self.b_inc:
+        if self.b_inc > 0 and self.pinned == self.b_inc and self.pinned != 0:
             self.probe("autotrust_replaced_pin")
 
 
